@@ -34,10 +34,10 @@ TIERS = {
     "thorough": {"runs": 60000, "batch": 16, "timeout_s": 1800, "max_n": 40, "max_burn": 20, "shrink_budget": 160},
 }
 RULE = ("Configuration = sampler {mh, mhcustom with a deterministic contraction, _dummy1d} x nsamples 1-10 (quick) x "
-        "nburnout 0-6 x step size x dim 1-3 x f output {scalar, vector, tuple, constant, its own argument, a view of it, a stored tensor, data-dependent branch that is disconnected from the parameters at some samples} x backward-only sampler options x parameters of f and of log p "
+        "nburnout 0-6 x step size x dim 1-3 x (mh) target density truncated to a box (log p = -inf outside) x f output {scalar, vector, tuple, constant, its own argument, a view of it, a stored tensor, data-dependent branch that is disconnected from the parameters at some samples} x backward-only sampler options x parameters of f and of log p "
         "{explicit tensors, held by one of 14 EditableModule / nn.Module kinds, f and log p on the same object or on two} "
         "x some tensors not requiring grad x an extra tensor entering neither function x usage {forward, backward, "
-        "graph-recording backward + second backward, linearity triple, peer failing at its k-th entry then retry, three successive plain backward passes}; in a quarter of the backward usages a peer first fails at its k-th entry INSIDE the backward pass (objects judged, pass repeated); in-place or pure custom step; non-float tuple component; explicit parameters computed from one another; only the start point requiring grad; backward pass under a caller-opened substitution; one torch RNG seed per run. The history of "
+        "graph-recording backward + second backward, linearity triple, peer failing at its k-th entry then retry, three successive plain backward passes}; in a quarter of the backward usages a peer first fails at its k-th entry INSIDE the backward pass (objects judged, pass repeated); in-place or pure custom step moving every coordinate, all but the last, or one coordinate per step (single-site sweep); non-float tuple component; explicit parameters computed from one another; only the start point requiring grad; backward pass under a caller-opened substitution; one torch RNG seed per run. The history of "
         "points at which f, log p and the custom step are entered, and of RNG draws, is recorded and judged against the "
         "chain model. A case is non-trivial iff the sampler entered log p or the custom step at >=2 distinct points and "
         "a gradient was judged or nburnout>0; distinct = distinct (sampler, nsamples, nburnout, dim, f kind, parameter "
@@ -70,11 +70,16 @@ def draw_scenario(cs, cfg):
     sc["nsamples"] = cs.randint(1, cfg["max_n"], "nsamples")
     sc["nburnout"] = cs.randint(0, cfg["max_burn"], "nburnout")
     sc["step"] = [0.5, 1.0, 0.2, 1.7][cs.draw(4, "step")]
+    # mh only: a truncated target (log p = -inf outside a box): proposals outside the support are legal inputs and
+    # must be rejected like any other downhill proposal with acceptance probability zero
+    sc["bounded_support"] = sc["sampler"] == "mh" and cs.bool("bounded_support", 1, 4)
     sc["valseed"] = cs.draw(1000, "valseed")
     sc["rng"] = cs.draw(100000, "rngseed")
     sc["fkind"] = ["scalar", "vector", "tuple", "const", "identity", "view", "param", "tuple_bool", "branch"][
         cs.weighted([4, 3, 3, 1, 1, 1, 1, 1, 2], "fkind")]
     sc["step_inplace"] = cs.bool("step_inplace", 1, 3)
+    # which coordinates the caller's step moves: all of them, all but the last, or one per step (single-site sweep)
+    sc["step_kind"] = cs.weighted([3, 1, 1], "step_kind")
     # explicit parameters computed from one another (b = b0 * (1 + 0.1 a)): each slot must get its own partial
     sc["dependent_params"] = cs.bool("dependent_params", 1, 3)
     # only x0 requires grad: a tensor that enters neither function's parameters
@@ -116,6 +121,7 @@ def build_env(sc):
         sc = dict(sc, rgW=False, rgb=False, a_grad=False, c_grad=False,
                   zkind="float" if sc["zkind"] != "float" else "float", dependent_params=False)
     env = Env()
+    AC.G16_KIND[0] = sc.get("step_kind", 0)
     n = max(sc["d"], 1)
     vals = AC.make_values(sc["valseed"], max(n, 2))
     env.vals = vals
@@ -123,6 +129,10 @@ def build_env(sc):
     g = torch.Generator()
     g.manual_seed(31 + sc["valseed"])
     env.x0 = 0.5 * torch.randn(sc["d"], generator=g, dtype=DT)
+    AC.LOGP16_RADIUS[0] = None
+    if sc.get("bounded_support") and float(env.x0.abs().max()) < 1.0:
+        AC.LOGP16_RADIUS[0] = 1.3
+        SIM.count("reach.truncated_target_density")
     if sc.get("only_x0_grad"):
         env.x0.requires_grad_()
     env.a = torch.tensor(0.9, dtype=DT).requires_grad_(sc["a_grad"])
@@ -696,6 +706,11 @@ def judge_mh(sc, env, rec, S, pev, lp, V, cnt, batch):
 
 
 def tally(d, acc, k, V, cnt, batch):
+    if d == float("-inf"):
+        cnt("reach.mh_proposal_outside_support")
+        if acc:
+            V("outside_support_accepted", "a proposal with log p = -inf was accepted at step #%d" % k)
+        return
     if d > 0:
         cnt("reach.mh_uphill")
         if not acc:
